@@ -26,7 +26,7 @@ ASSUMPTIONS = [
 ]
 KNOBS = ["indent", "blank", "trailing", "comments", "block_comments", "op_space", "comma_space", "bracket_space", "upper_mnemonic",
          "upper_suffix", "upper_index", "upper_hex"]
-WEIGHTS = dict(ins=8, data=4, label=3, block=1.5, scope=1, macro=1, call=2, for_=1, if_=1, assign=1.5, sym=1, org=0.6, reloc=0.3, ascii=0.7, branch=0.5)
+WEIGHTS = dict(ins=8, data=4, label=3, block=1.5, scope=1, macro=1, call=2, for_=1, if_=1, assign=1.5, sym=1, org=0.6, reloc=0.3, ascii=0.7, branch=0.5, table=0.3, text=0.6, include=0.4)
 
 
 def plan(tier: str, seed: int) -> list[dict]:
